@@ -515,6 +515,8 @@ class C09(Prop):
             exp["cow"] = (("O:" if bs else "B:") + s_hex) if valid else "R"
             exp["bstr"] = exp_strict if (valid and not bs) else "R"
             exp["getkey"] = "F:30" if valid else None
+            exp["getkey2"] = "F:3330" if valid else None      # (raw text `30` in hex)
+            exp["bytes2"] = exp_strict if valid else None     # (what a byte string makes of undecodable text is C04's business)
             t = unhex(case.split(" ")[1])
             ls = int(case.split(" ")[2])
             kind = case.split(" ")[3]
